@@ -292,6 +292,8 @@ func runC08(c *wk.Ctx) {
 		r := c.Rand("c08d", i)
 		c08Decoder(c, r, e, idx, int(i%6))
 	}
+	// (5) the packet loop on echo replies (matching, duplicated, foreign, truncated) while pings are pending
+	runPingStream(c, c.N(400, 20_000), 6_000_000_000)
 }
 
 func mutateBytes(r *rand.Rand, b []byte) ([]byte, string) {
